@@ -797,3 +797,123 @@ def r16f(ctx, rep):
                                      "the float reading is attempted only after the exact integer readings" if ok else
                                      "Number::parse can try the float reading before the exact integer readings: exact "
                                      "spellings containing e/E/. are read inexactly", [fn.blocks[fb]["term"]["loc"]])
+
+
+def _base_chain(f, op, depth=10):
+    """locals on the copy / reference / deref / call-result chain of an operand (how a value got here)"""
+    out = []
+    cur = op
+    for _ in range(depth):
+        pl = op_place(cur)
+        if pl is None:
+            break
+        out.append(pl["l"])
+        sd = f.single_def(pl["l"])
+        if sd is None:
+            break
+        if sd[2] == "call":
+            t = sd[3]
+            c = callee(t) or ""
+            # borrow(), as_str(), deref(), Try::branch: the value of their first argument, seen through
+            if t["args"] and (c.endswith(("::borrow", "::as_str", "::deref", "::as_ref", "::clone")) or "Try>::branch" in (t.get("fnargs") or c)):
+                cur = t["args"][0]
+                continue
+            break
+        rv = sd[3]["rv"]
+        if rv["k"] == "use":
+            cur = rv["a"]
+            continue
+        if rv["k"] == "ref":
+            cur = {"copy": rv["place"]}
+            continue
+        break
+    return out
+
+
+def r_fold_adjacent(ctx, rep, rule, modules, floor):
+    facts = ctx["facts"]
+    rep.rule(rule, "variadic comparison folds compare adjacent operands in argument order: in each fold that takes the comparison "
+             "as an `impl Fn(&T, &T) -> bool` (num_comp, string_comp, char_comp) the operands come off the stack last to "
+             "first; inside the loop the predicate is applied to (operand popped in this iteration, operand carried from the "
+             "previous one) in that order, and the carried operand is then replaced by the one just popped. A fold that keeps "
+             "comparing with the last operand, or applies the predicate the other way round, answers (< 2 1 3) with #t.")
+    n = 0
+    for p, f in sorted(facts.fns.items()):
+        if not p.startswith(tuple(modules)) or "::{closure" in p:
+            continue
+        if not any("impl Fn(&" in f.locals[i] and "-> bool" in f.locals[i] for i in range(1, f.argc + 1)):
+            continue
+        calls = [(bb, t) for bb, t in f.calls() if "as std::ops::Fn<" in (t.get("fnargs") or "") and (t.get("fnargs") or "").endswith(">::call") and len(t["args"]) == 2]
+        for bb, t in calls:
+            o = f.origin(t["args"][1])
+            if not (o[0] == "rv" and o[1]["rv"]["k"] == "agg" and len(o[1]["rv"]["ops"]) == 2):
+                continue
+            loops = [(src, h) for src, h in f.back_edges() if bb in ((f.reach_from(h) & f.reach_back(src)) | {h, src})]
+            if not loops:
+                continue
+            n += 1
+            body = set()
+            for src, h in loops:
+                body |= (f.reach_from(h) & f.reach_back(src)) | {h, src}
+            a, b = o[1]["rv"]["ops"]
+            ca, cb = _base_chain(f, a), _base_chain(f, b)
+
+            def kind(chain):
+                # carried: some local on the chain is defined both outside and inside the loop; fresh: the chain ends in a
+                # local all of whose definitions are inside the loop
+                for l in chain:
+                    ds = [d for d in f.defs().get(l, []) if d[2] != "partial"]
+                    if ds and any(d[0] in body for d in ds) and any(d[0] not in body for d in ds):
+                        return "carried", l
+                last = chain[-1] if chain else None
+                if last is not None:
+                    ds = [d for d in f.defs().get(last, []) if d[2] != "partial"]
+                    if ds and all(d[0] in body for d in ds):
+                        return "fresh", last
+                return "other", last
+            ka, kb = kind(ca), kind(cb)
+            nm = f.short.rsplit("::", 1)[-1]
+            key = "%s|%s" % (rule, nm)
+            if ka[0] == "fresh" and kb[0] == "other":
+                rep.fail(rule, key + "|carry", "%s compares every operand it pops with an operand fixed before the loop: the carried "
+                         "operand is never replaced by the one just popped, so operands are not compared with their neighbours" % f.short, [t["loc"]])
+                continue
+            if ka[0] != "fresh" or kb[0] != "carried":
+                rep.fail(rule, key + "|order", "%s applies its predicate to (%s, %s) operands: expected (operand popped in this iteration, "
+                         "operand carried over) — the operands are compared the wrong way round or not against the neighbour" % (
+                             f.short, ka[0], kb[0]), [t["loc"]])
+                continue
+            rep.ok(rule, key + "|order", "%s applies the predicate to (just popped, carried)" % f.short, [t["loc"]])
+            carried = kb[1]
+            fresh_locals = set(ca)
+            upd = False
+            for d in f.defs().get(carried, []):
+                if d[2] == "partial" or d[0] not in body:
+                    continue
+                if d[2] == "assign":
+                    src_chain = set(_base_chain(f, d[3]["rv"].get("a")) if d[3]["rv"]["k"] == "use" else [])
+                    # the update's source and the fresh operand share their origin (the value popped in this iteration)
+                    roots_a = set()
+                    for l in fresh_locals:
+                        roots_a.add(l)
+                    if src_chain & roots_a or _share_origin(f, src_chain, fresh_locals):
+                        upd = True
+            (rep.ok if upd else rep.fail)(rule, key + "|carry", "%s replaces the carried operand by the one just popped" % f.short if upd else
+                                          "%s never replaces the carried operand inside the loop by the operand it has just popped: every "
+                                          "operand is compared with the last one instead of with its neighbour" % f.short, [t["loc"]])
+    rep.floor(rule, "comparison folds taking an impl Fn(&T, &T) -> bool", n, floor)
+
+
+def _share_origin(f, chain_a, chain_b):
+    """both chains reach a projection of the same local (e.g. `(x as Number).0` moved out twice)"""
+    def bases(chain):
+        out = set()
+        for l in chain:
+            sd = f.single_def(l)
+            if sd is not None and sd[2] == "assign":
+                rv = sd[3]["rv"]
+                pl = op_place(rv.get("a")) if rv["k"] == "use" else (rv.get("place") if rv["k"] == "ref" else None)
+                if pl is not None:
+                    out.add(pl["l"])
+        return out
+    return bool(bases(chain_a) & bases(chain_b))
